@@ -76,6 +76,21 @@ CLAIMS.update({
    tech="TLA+ model checked by TLC; TLC-generated cases replayed through real Sessions; recorded traces validated by TLC", ref="DESIGN.md section 7 C15"),
 })
 
+CLAIMS.update({
+ "C13": dict(cat="model_checking",
+   text="Executor.tla models executeQuery / speculate / run / do one action per decision point (shared host iterator and attempts counter, results channel, context cancellation) with ExecutorMon.tla, the property as a monitor: attempts never exceed what the policies allow (the exact bound sent <= Bmax + executionsStarted is proved; the tempting budget+1 is shown false under speculation), same host for Retry / next host for RetryNextHost, Rethrow and Ignore stop, nothing after cancellation, non-idempotent => one execution and never retried, exactly one result = first to complete with its own last error. TLC checks bounded scripts exhaustively; every sequential behaviour and sampled concurrent behaviours are replayed through the real queryExecutor with a gate scheduler (fake ExecutableQuery over a real Query, real retry and speculative policies, real round-robin policy), free-running executions are recorded, and TLC validates every trace against Executor.tla's actions and the monitor.",
+   note="In-package level only (the end-to-end path through Session.Query/ExecuteBatch and the consistency written on the wire by the downgrading policy are not checked); 'first to complete' is strict only in gated replays.",
+   tech="TLA+ model checked by TLC; TLC behaviours replayed through gates into the real executor; recorded traces validated by TLC", ref="DESIGN.md section 7 C13"),
+ "C14": dict(cat="model_checking",
+   text="Prepare.tla models the prepared-statement cache (LRU with in-flight entries, lookup-or-insert under one lock incl. eviction of in-flight entries, PREPARE ok/fail, flight completion with removal on failure, waiters, arity check, EXECUTE, UNPREPARED with id-matching eviction and re-execution, node-side forgetting) with the invariants Bounded, PreparedOnce (#PREPARE(key) <= 1 + #removals(key)), FailedNotCached, FailedReported, ExecAttribution, ArityChecked and liveness Terminates. TLC checks bounded instances, generates behaviours and targeted counterexample schedules that are forced on a real Session through gates (node answers on command), and free-running concurrent executors/batches against scripted nodes are recorded through the LRU hooks, OnEvicted and the node's frames and evaluated by TLC after every event.",
+   note="Bounded instances (<=3 executors, 2 statements, cache size 1..3, <=2 forgets); a second keyspace exists only in-package; PREPARE timeouts and connection loss during PREPARE are not driven; step mismatches are drift.",
+   tech="TLA+ model checked by TLC; TLC-generated schedules forced through gates on a real Session; recorded traces evaluated by TLC", ref="DESIGN.md section 7 C14"),
+ "C18": dict(cat="exploration",
+   text="Compress.tla holds total reference decoders for the snappy block format and Cassandra's length-prefixed LZ4 block format plus the negotiation and flag rules. TLC assembles streams the driver's encoders never produce (copy-4, long-form literals, overlapping copies, every length boundary) and their corrupt variants for the real Decode; bodies encoded by the real Encode are decoded by the TLA+ decoders (truncations and bit flips of real output are judged too); the negotiation table (SUPPORTED sets x configured compressor x protocol) is exhausted with real sessions whose captured frames are judged by TLC (compressed <=> flag set <=> negotiated and not OPTIONS/STARTUP; reference-decoded body = logical body); flagged or corrupt responses on live connections run in child processes.",
+   note="Specification as oracle over generated and random bodies up to 4 KiB for the TLC decoders (larger bodies only round-tripped in Go: not decided); sessions use a stand-in 'lz4' inside package gocql because the lz4 module cannot be imported there (the real LZ4Compressor is exercised at Encode/Decode level in its own module); protocol v5 framing out of scope.",
+   tech="TLA+ reference decoders evaluated by TLC as oracle in both directions; exhaustive negotiation table replayed through real sessions and judged by TLC", ref="DESIGN.md section 7 C18"),
+})
+
 NA = {}
 DEFAULT_NA = "machinery under construction in this round; not yet claimed"
 
